@@ -859,7 +859,8 @@ def run_case(arg):
             try:
                 g2, _ = decode(opt)
                 later.append(project_core(g2, case, mesh, orders[step])[0])
-                if between.get("kind") == "sweep" and case["modes"][step] == "faces" and step == 1:
+                if (between.get("kind") == "sweep" and case["modes"][step] == "faces" and step == 1
+                        and case["route"] not in ("ugrid", "topology")):  # repeats: where values are shipped
                     sweep(g2, between)
                     rec["later_after"].append(project(g2, case, mesh, orders[step]))
             except Exception as e:
